@@ -85,6 +85,15 @@ Theorem C30_plan_pred : forall ranges marks l,
 Proof. exact plan_pred_ok. Qed.
 Print Assumptions C30_plan_pred.
 
+(* largeTotalIndexSizeFilter.plan (plan, and while the planned blocks' summed
+   index size reaches the limit mark the biggest one no-compact and plan again)
+   terminates for every group and limit: each round marks a block that was
+   unmarked, so |group| + 1 rounds suffice. *)
+Theorem C30_index_filter_terminates : forall ranges marks lim l,
+  exists res ms, idx_plan (S (length l)) ranges marks lim l = Some (res, ms).
+Proof. exact index_filter_terminates. Qed.
+Print Assumptions C30_index_filter_terminates.
+
 (* Non-vacuity: aligned blocks 0-20,20-40,40-60,60-80 with ranges 20/60: the
    first three are planned (window [0,60]), the newest is left out; a second
    instance with negative times and a no-compact mark. *)
@@ -109,3 +118,13 @@ Example C30_converges_nonvacuous :
   let l := [b 1 0 20; b 2 0 20; b 3 20 40; b 4 25 40; b 5 40 60] in
   option_map fst (iterate (S (measure l)) [20; 60] [] l 100) = Some [[1; 2]; [3; 4]].
 Proof. vm_compute. reflexivity. Qed.
+
+(* Reading of "no longer than the largest range": it is claimed (C30_fits_range) for
+   plans over non-overlapping blocks.  A vertical merge of an overlapping chain can
+   legitimately span more than the largest range (documented, not an alarm): *)
+Example C30_overlap_can_exceed :
+  let b i a z := mk_meta i a z false 0 10 1 in
+  let l := [b 1 0 40; b 2 30 70; b 3 60 100] in
+  option_map (map bid) (plan [20; 60] [] l) = Some [1; 2; 3]
+  /\ maxt (hull l 9) - mint (hull l 9) = 100.
+Proof. vm_compute. split; reflexivity. Qed.
